@@ -3,6 +3,7 @@ CONSTANTS
   Vars = {"x1", "x2", "x3"}
   Vals = {0, 1, 2, 3}
   Costs <- CostsGen
+  Offsets = {0, 3}
   D = 9
 CONSTRAINT Emit
 CHECK_DEADLOCK FALSE
